@@ -187,12 +187,16 @@ def install(X):
                                "released on context exit, normal or exceptional")
         lk = Opaque("filelock", fresh_name("lock"))
         lk.attrs["_g_key"] = args[0]
+        # the constructor's default time-out applies to every acquire() that does not give its own (filelock API)
+        lk.attrs["_g_timeout"] = kwargs.get("timeout", args[1] if len(args) > 1 else -1)
         return lk
 
     @X.register_opaque("filelock", "acquire")
     def _(interp, lk, args, kwargs):
         t = kwargs.get("timeout", args[0] if args else None)
-        if t is not None and not (isinstance(t, int) and t < 0):
+        if t is None:
+            t = lk.attrs.get("_g_timeout", -1)
+        if t is not None and not (isinstance(t, (int, float)) and t < 0):
             # a bounded wait may give up while another process legitimately holds the lock
             if interp.path.nondet("lock_wait_times_out"):
                 interp.path.event("lock_timeout", lk.attrs["_g_key"])
